@@ -575,7 +575,7 @@ fn run_suite<S: ShortGroupSignatureScheme>(v: &Value, ps: bool) -> Value {
     }
 
     // ---- assemble a presentation for a given challenge
-    let build = |c: Scalar, mats: &IndexMap<String, SigMat>| -> (Presentation<S>, Value) {
+    let build = |c: Scalar, mats: &IndexMap<String, SigMat>, fin: bool| -> (Presentation<S>, Value) {
         let mut proofs: IndexMap<String, PresentationProofs<S>> = IndexMap::new();
         let mut mproofs: Vec<Value> = vec![];
         for st in stmts_spec {
@@ -583,7 +583,35 @@ fn run_suite<S: ShortGroupSignatureScheme>(v: &Value, ps: bool) -> Value {
             match st["k"].as_str().unwrap() {
                 "sig" => {
                     let m = &mats[&id];
-                    let resp: Vec<Scalar> = m.nonces.iter().zip(m.secrets.iter()).map(|(n, s)| *n + c * *s).collect();
+                    let mut resp: Vec<Scalar> = m.nonces.iter().zip(m.secrets.iter()).map(|(n, s)| *n + c * *s).collect();
+                    let mut m = m.clone();
+                    if fin && id == target {
+                        // modifications of the finished presentation (C11)
+                        match devk.as_str() {
+                            "tamper_resp" => {
+                                let k = dev["slot"].as_u64().unwrap_or(0) as usize % resp.len().max(1);
+                                if !resp.is_empty() { resp[k] += Scalar::ONE; }
+                            }
+                            "tamper_resp_neg" => {
+                                let k = dev["slot"].as_u64().unwrap_or(0) as usize % resp.len().max(1);
+                                if !resp.is_empty() { resp[k] = -resp[k]; }
+                            }
+                            "tamper_resp_swap" => {
+                                if resp.len() >= 2 { resp.swap(0, 1); }
+                            }
+                            "tamper_e1" => m.e1 = m.e1.add(&Sh1::gen(Scalar::ONE)),
+                            "tamper_e2" => m.e2 = m.e2.add(&Sh1::gen(Scalar::ONE)),
+                            "tamper_e3" => {
+                                m.t1 = m.t1.add(&Sh1::gen(Scalar::ONE));
+                                m.j2 = m.j2.add(&Sh2::gen(Scalar::ONE));
+                            }
+                            "tamper_disc_scalar" => {
+                                if let Some(e) = m.disclosed.first_mut() { e.1 += Scalar::ONE; }
+                            }
+                            _ => {}
+                        }
+                    }
+                    let m = &m;
                     if id == target && devk == "omit_sig" {
                         continue;
                     }
@@ -634,11 +662,14 @@ fn run_suite<S: ShortGroupSignatureScheme>(v: &Value, ps: bool) -> Value {
                         continue;
                     }
                     let cm = &comms[&id];
-                    let bp = cm.nb + c * cm.b;
+                    let mut bp = cm.nb + c * cm.b;
+                    let mut cpt = cm.c;
+                    if fin && id == target && devk == "tamper_bp" { bp += Scalar::ONE; }
+                    if fin && id == target && devk == "tamper_C" { cpt = cpt.add(&Sh1::gen(Scalar::ONE)); }
                     // the message response is NOT carried by the commitment proof: the verifier takes it from the signature proof
-                    let p = CommitmentProof { id: id.clone(), commitment: cm.c.pt, blinder_proof: bp };
+                    let p = CommitmentProof { id: id.clone(), commitment: cpt.pt, blinder_proof: bp };
                     proofs.insert(id.clone(), p.into());
-                    mproofs.push(json!([idn(&ids,&id), {"k":"comm","id":idn(&ids,&id),"c":hexs(&cm.c.dl),"bp":hexs(&bp)}]));
+                    mproofs.push(json!([idn(&ids,&id), {"k":"comm","id":idn(&ids,&id),"c":hexs(&cpt.dl),"bp":hexs(&bp)}]));
                     let _ = (cm.m, cm.nm);
                 }
                 _ => {}
@@ -658,6 +689,22 @@ fn run_suite<S: ShortGroupSignatureScheme>(v: &Value, ps: bool) -> Value {
             })
             .collect();
         let mut rep = reported.clone();
+        let mut mrep = mrep;
+        if fin && devk == "tamper_reported" {
+            if let Some(mm) = rep.get_mut(&target) {
+                if let Some((l, _)) = mm.iter().next().map(|(l, c)| (l.clone(), c.clone())) {
+                    let nc: ClaimData = HashedClaim::from("tampered").into();
+                    let li = l.strip_prefix('l').and_then(|x| x.parse::<usize>().ok()).unwrap_or(1000);
+                    for e in mrep.iter_mut() {
+                        if e[0] == json!(idn(&ids, &target)) {
+                            let arr = e[1].as_array().unwrap().iter().map(|lv| if lv[0] == json!(li) { json!([li, hexs(&nc.to_scalar())]) } else { lv.clone() }).collect::<Vec<_>>();
+                            e[1] = json!(arr);
+                        }
+                    }
+                    mm.insert(l, nc);
+                }
+            }
+        }
         if devk == "reported_missing_entry" {
             rep.shift_remove(&target);
         }
@@ -667,7 +714,7 @@ fn run_suite<S: ShortGroupSignatureScheme>(v: &Value, ps: bool) -> Value {
 
     // For a commitment with a substituted value the message nonce/secret live in the signature proof's slot;
     // the prover can only make ONE of the two relations hold.  "comm_subst_*" keep the signature relation true.
-    let (p0, m0) = build(Scalar::ZERO, &mats);
+    let (p0, m0) = build(Scalar::ZERO, &mats, false);
     let r0 = catch_unwind(AssertUnwindSafe(|| p0.verify(&schema, &nonce)));
     let (c, derived, r0s) = match &r0 {
         Ok(Err(e)) => {
@@ -689,7 +736,7 @@ fn run_suite<S: ShortGroupSignatureScheme>(v: &Value, ps: bool) -> Value {
         c_used = c + Scalar::ONE;
         derived = false;
     }
-    let (p, m) = build(c_used, &mats);
+    let (p, m) = build(c_used, &mats, true);
     let p = if devk == "roundtrip_json" {
         match serde_json::to_string(&p).ok().and_then(|s| serde_json::from_str::<Presentation<S>>(&s).ok()) {
             Some(q) => q,
